@@ -73,6 +73,38 @@ def gen_cases(rng, tier):
             else:
                 ops.append(['setwfn_data', i, fqeio.random_state(rng, norb, keys, density=0.6, amp=3)])
         cases.append({'kind': 'hist', 'norb': norb, 'mode': mode, 'n': nn, 'sz': sz, 'pool': pool, 'ops': ops})
+    # large sectors (more than 2^14 coefficients: blocked / batched in-place updates), sparse states spread over all rows;
+    # the model is asked for the coefficients on the union of the supports plus some determinants outside it
+    for _ in range(3 if tier == 'quick' else 12):
+        norb, na, nb = rng.choice([(10, 5, 5), (10, 5, 4), (11, 5, 4), (10, 4, 6)])
+        keys = fqeio.sector_keys(norb, 'ns', na + nb, na - nb)
+        full = fqeio.basis_of(norb, keys)
+        lena = len(set(a for a, b in full))
+        support = rng.sample(full, 30) + [full[-1], full[-2], full[0]]        # includes the last rows
+        pool = [[[a, b, rng.randint(-3, 3) or 1, rng.randint(-3, 3)] for a, b in rng.sample(support, 12)] for _ in range(NPOOL)]
+        ops = []
+        for _k in range(rng.randint(4, 9)):
+            k = rng.choice(['add', 'sub', 'iadd', 'axpy', 'axpy', 'scale', 'copy', 'vdot', 'norm2', 'get', 'set'])
+            i, j, t = rng.randrange(NPOOL), rng.randrange(NPOOL), rng.randrange(NPOOL)
+            if k in ('add', 'sub'):
+                ops.append([k, i, j, t])
+            elif k == 'iadd':
+                ops.append(['iadd', i, j])
+            elif k == 'axpy':
+                ops.append(['axpy', i, _c(rng), j])
+            elif k == 'scale':
+                ops.append(['scale', i, _c(rng)])
+            elif k == 'copy':
+                ops.append(['copy', i, t])
+            elif k == 'vdot':
+                ops.append(['vdot', i, j])
+            elif k == 'norm2':
+                ops.append(['norm2', i])
+            else:
+                a, b = rng.choice(support)
+                ops.append(['set', i, a, b, _c(rng)] if k == 'set' else ['get', i, a, b])
+        cases.append({'kind': 'hist', 'norb': norb, 'mode': 'ns', 'n': na + nb, 'sz': na - nb, 'pool': pool, 'ops': ops,
+                      'basis': [list(x) for x in support], 'big': True})
     # mismatched sector sets must be rejected
     for _ in range(12 if tier == 'quick' else 60):
         norb = rng.randint(2, 3)
@@ -85,6 +117,21 @@ def gen_cases(rng, tier):
         cases.append({'kind': 'mismatch', 'norb': norb, 'k1': [na + nb, na - nb], 'k2': [na2 + nb2, na2 - nb2],
                       'v1': fqeio.random_state(rng, norb, k1), 'v2': fqeio.random_state(rng, norb, k2),
                       'op': rng.choice(['add', 'sub', 'iadd', 'axpy'])})
+    # overlapping but different sector SETS (superset, subset, partial overlap): must be refused, operands untouched
+    for _ in range(12 if tier == 'quick' else 60):
+        norb = rng.randint(2, 3)
+        allk = [(n, sz) for n in range(1, 2 * norb) for sz in range(-norb, norb + 1)
+                if (n + sz) % 2 == 0 and 0 <= (n + sz) // 2 <= norb and 0 <= (n - sz) // 2 <= norb]
+        common = rng.sample(allk, rng.randint(1, 2))
+        rest = [k for k in allk if k not in common]
+        shape = rng.choice(['superset', 'subset', 'overlap'])
+        e1 = rng.sample(rest, 1) if shape in ('subset', 'overlap') else []
+        e2 = rng.sample([k for k in rest if k not in e1], 1) if shape in ('superset', 'overlap') else []
+        order = rng.random() < 0.5
+        k1s = (common + e1) if order else (e1 + common)
+        k2s = (common + e2) if order else (e2 + common)
+        cases.append({'kind': 'mismatch_sets', 'norb': norb, 'k1s': [list(k) for k in k1s], 'k2s': [list(k) for k in k2s],
+                      'shape': shape, 'seed': rng.randrange(10 ** 6), 'op': rng.choice(['add', 'sub', 'iadd', 'axpy'])})
     return cases
 
 
@@ -93,6 +140,32 @@ def run_impl(case, mode):
     import copy
     import numpy
     import fqe
+    if case['kind'] == 'mismatch_sets':
+        rs = numpy.random.RandomState(case['seed'])
+
+        def mk(keys):
+            w = fqe.Wavefunction([[k[0], k[1], case['norb']] for k in keys])
+            data = {}
+            for k in w.sectors():
+                shp = w.sector(k).coeff.shape
+                data[k] = (rs.randint(-3, 4, size=shp) + 1j * rs.randint(-3, 4, size=shp)).astype(numpy.complex128)
+            w.set_wfn(strategy='from_data', raw_data=data)
+            return w
+        w1, w2 = mk(case['k1s']), mk(case['k2s'])
+        b1, b2 = fqeio.read_state(w1), fqeio.read_state(w2)
+        raised = None
+        try:
+            if case['op'] == 'add':
+                w1 + w2
+            elif case['op'] == 'sub':
+                w1 - w2
+            elif case['op'] == 'iadd':
+                w1 += w2
+            else:
+                w1.ax_plus_y(2.0, w2)
+        except Exception as e:  # noqa
+            raised = type(e).__name__
+        return {'raised': raised, 'unchanged': fqeio.read_state(w1) == b1 and fqeio.read_state(w2) == b2}
     if case['kind'] == 'mismatch':
         w1 = fqeio.make_wfn(case['norb'], 'ns', case['k1'][0], case['k1'][1], case['v1'])
         w2 = fqeio.make_wfn(case['norb'], 'ns', case['k2'][0], case['k2'][1], case['v2'])
@@ -174,11 +247,11 @@ def run_impl(case, mode):
 
 # ------------------------------------------------------------------ model
 def expected(model, case):
-    if case['kind'] == 'mismatch':
+    if case['kind'] in ('mismatch', 'mismatch_sets'):
         return {'raised': True}
     norb = case['norb']
     keys = fqeio.sector_keys(norb, case['mode'], case['n'], case['sz'])
-    basis = fqeio.basis_of(norb, keys)
+    basis = [tuple(x) for x in case['basis']] if case.get('basis') else fqeio.basis_of(norb, keys)
     toks = ['HIST', norb, len(case['pool'])]
     for v in case['pool']:
         toks += fqeio.vec_tokens(v)
@@ -248,10 +321,11 @@ def expected(model, case):
 def compare(case, got, exp, mode):
     if 'exc' in got or 'crash' in got:
         return ['history raised %s: %s' % (got.get('exc', 'CRASH'), str({k: got[k] for k in got if k != 'tb'})[:300])]
-    if case['kind'] == 'mismatch':
+    if case['kind'] in ('mismatch', 'mismatch_sets'):
         bad = []
         if not got['raised']:
-            bad.append('operands with different sector sets were combined by %s without an exception' % case['op'])
+            bad.append('operands with different sector sets%s were combined by %s without an exception' % (
+                ' (%s: %s vs %s)' % (case['shape'], case['k1s'], case['k2s']) if case['kind'] == 'mismatch_sets' else '', case['op']))
         if not got['unchanged']:
             bad.append('rejected %s modified an operand' % case['op'])
         return bad
@@ -283,7 +357,7 @@ def classify(case, mode, bad, got, exp):
 
 
 def nontrivial(case, exp):
-    if case['kind'] == 'mismatch':
+    if case['kind'] in ('mismatch', 'mismatch_sets'):
         return True
     kinds = set(op[0] for op in case['ops'])
     return len(kinds) >= 3 and any(len(f) >= 2 for f in exp['final'])
@@ -292,6 +366,8 @@ def nontrivial(case, exp):
 def case_class(case):
     if case['kind'] == 'mismatch':
         return 'mismatch/' + case['op']
+    if case['kind'] == 'mismatch_sets':
+        return 'mismatch_sets/%s/%s' % (case['shape'], case['op'])
     return 'hist/%s/norb%d/len%d' % (case['mode'], case['norb'], len(case['ops']))
 
 
